@@ -532,13 +532,13 @@ Proof.
   assert (g < length cglobals)%nat by (apply nth_error_Some; congruence). lia.
 Qed.
 
-Theorem tr_ratom_match_brk m ba bs br bl rs line sb p flg e fuel :
-  nth_error m ba = Some [VInt 91; VPtr bs 0] -> str_at m bs sb -> nonul sb -> sb <> [] ->
+Theorem tr_ratom_match_brk_at m ba oa bs br bl rs line sb p flg e fuel :
+  load m ba oa = Ok (VInt 91) -> load m ba (oa + 1 * 1) = Ok (VPtr bs 0) -> str_at m bs sb -> nonul sb -> sb <> [] ->
   rstate_at m br bl rs p flg -> str_at m bl line -> bytes_lt256 line -> (p <= length line)%nat ->
   globals_at m -> (length cglobals <= br)%nat -> br <> bs -> ba <> br ->
   -2147483648 <= flg <= 2147483647 -> (length line < fuel)%nat -> (cls_fuel <= fuel)%nat -> (length sb + 13 <= fuel)%nat ->
   Z.of_nat (length sb) < 2147483647 ->
-  callf cprog fuel (S (S (S (S (S (S e)))))) F_ratom_match [VPtr ba 0; VPtr br 0] m =
+  callf cprog fuel (S (S (S (S (S (S e)))))) F_ratom_match [VPtr ba oa; VPtr br 0] m =
   match ratom_match flg line (ABrk sb) p with
   | ReSyntax.Ok (Some p') => Ok (VInt 0, upd m br (upd rs 0 (VPtr bl (Z.of_nat p'))))
   | ReSyntax.Ok None =>
@@ -546,10 +546,8 @@ Theorem tr_ratom_match_brk m ba bs br bl rs line sb p flg e fuel :
   | _ => Err EShape
   end.
 Proof.
-  intros Ha Hs Hnn Hne [Hr [Hr0 [Hr1 Hrf]]] Hl H256 Hp Hg Hbr Hbs Hba Hflg Hf Hcf Hfs Hmax.
+  intros L_ra L_as Hs Hnn Hne [Hr [Hr0 [Hr1 Hrf]]] Hl H256 Hp Hg Hbr Hbs Hba Hflg Hf Hcf Hfs Hmax.
   assert (Hf4 : (4 <= fuel)%nat) by (unfold cls_fuel in Hcf; lia).
-  pose proof (load_cell m ba _ 0 _ Ha eq_refl ltac:(lia)) as L_ra.
-  pose proof (load_cell m ba _ (0 + 1 * 1) _ Ha eq_refl ltac:(lia)) as L_as.
   pose proof (load_cell m br _ 0 _ Hr Hr0 ltac:(lia)) as L_s.
   pose proof (load_cell m br _ (0 + 1 * 131) _ Hr Hrf ltac:(lia)) as L_f.
   assert (Hlen : (131 < length rs)%nat) by (apply nth_error_Some; rewrite Hrf; discriminate).
@@ -565,7 +563,7 @@ Proof.
   match goal with
   | |- context [if negb (negb (cv =? 0)%N) then ?A else ?B] =>
       assert (Cond : (if negb (negb (cv =? 0)%N) then A else B)
-                     = Ok (VInt (b2z skip), mkst [VPtr ba 0; VPtr br 0; VUndef; VUndef; VUndef; VUndef; VUndef; VInt (Z.of_N cv)] m))
+                     = Ok (VInt (b2z skip), mkst [VPtr ba oa; VPtr br 0; VUndef; VUndef; VUndef; VUndef; VUndef; VInt (Z.of_N cv)] m))
   end.
   { unfold skip. destruct (cv =? 0)%N; cbn [negb orb andb]; [reflexivity|].
     destruct (cv =? 10)%N; cbn [negb orb andb]; xstep; [|reflexivity].
@@ -586,11 +584,31 @@ Proof.
   assert (G1 : globals_at m1) by (apply globals_at_upd; assumption).
   assert (S1 : str_at m1 bs sb) by (apply str_at_upd_other; [exact Hbrm|intro X; apply Hbs; symmetry; exact X|exact Hs]).
   assert (Hsb1 : (1 <= length sb)%nat) by (destruct sb; [congruence|cbn; lia]).
-  change (0 + 1 * 1) with (Z.of_nat 1).
+  change (callf cprog fuel (S (S (S (S (S e))))) F_brk_match [VPtr bs (0 + 1 * 1); VInt (Z.of_N cv); VInt flg] m1)
+    with (callf cprog fuel (S (S (S (S (S e))))) F_brk_match [VPtr bs (Z.of_nat 1); VInt (Z.of_N cv); VInt flg] m1).
   pose proof (tr_brk_match 2 e m1 fuel flg G1 Hflg Hcf bs sb 1%nat cv r S1 Hnn Hsb1 Hfs Hmax Hbm) as T.
   cbn [Nat.add] in T. rewrite T. xstep.
   rewrite (rdk_in _ line p Hp). cbn [ReSyntax.bind].
   replace (Nat.leb (p + re_uclen_at line p) (length line)) with true by (symmetry; apply Nat.leb_le; lia). cbn [negb].
   rewrite Hbm. cbn [ReSyntax.bind].
   destruct r; reflexivity.
+Qed.
+
+Theorem tr_ratom_match_brk m ba bs br bl rs line sb p flg e fuel :
+  nth_error m ba = Some [VInt 91; VPtr bs 0] -> str_at m bs sb -> nonul sb -> sb <> [] ->
+  rstate_at m br bl rs p flg -> str_at m bl line -> bytes_lt256 line -> (p <= length line)%nat ->
+  globals_at m -> (length cglobals <= br)%nat -> br <> bs -> ba <> br ->
+  -2147483648 <= flg <= 2147483647 -> (length line < fuel)%nat -> (cls_fuel <= fuel)%nat -> (length sb + 13 <= fuel)%nat ->
+  Z.of_nat (length sb) < 2147483647 ->
+  callf cprog fuel (S (S (S (S (S (S e)))))) F_ratom_match [VPtr ba 0; VPtr br 0] m =
+  match ratom_match flg line (ABrk sb) p with
+  | ReSyntax.Ok (Some p') => Ok (VInt 0, upd m br (upd rs 0 (VPtr bl (Z.of_nat p'))))
+  | ReSyntax.Ok None =>
+      Ok (VInt 1, if brk_advanced flg line p then upd m br (upd rs 0 (VPtr bl (Z.of_nat (p + re_uclen_at line p)))) else m)
+  | _ => Err EShape
+  end.
+Proof.
+  intro Ha. apply tr_ratom_match_brk_at.
+  - exact (load_cell m ba _ 0 _ Ha eq_refl ltac:(lia)).
+  - exact (load_cell m ba _ (0 + 1 * 1) _ Ha eq_refl ltac:(lia)).
 Qed.
